@@ -30,9 +30,15 @@ type CallerResult struct {
 
 // RunCallers interleaves the callers under a tape-drawn strategy and returns their results.
 func RunCallers(t *tape.Tape, log *engine.EvLog, st *engine.Stats, callers []func() string) ([]CallerResult, *Sim, error) {
+	return RunCallersWith([]int{StratUniform, StratSticky, StratPCT, StratStarve}, t, log, st, callers)
+}
+
+// RunCallersWith is RunCallers with the pool of strategies to draw from given by the check (a window of a few
+// statements between two calls is found by few-preemption schedules far more often than by uniform ones).
+func RunCallersWith(strategies []int, t *tape.Tape, log *engine.EvLog, st *engine.Stats, callers []func() string) ([]CallerResult, *Sim, error) {
 	sim := NewSim(t, log, st)
 	sim.MaxSteps = 20000
-	sim.Configure([]int{StratUniform, StratSticky, StratPCT, StratStarve})
+	sim.Configure(strategies)
 	st.Count("runs_strategy_" + sim.StrategyName())
 	// Always a single P: P-local runtime state (sync.Pool's private slot) is then one deterministic LIFO shared by
 	// the interleaved tasks - the adversarial case, and the only one in which a run is a function of its tape
